@@ -7,6 +7,7 @@ import (
 	"fmt"
 	"math/big"
 	"strings"
+	"sync"
 )
 
 type Sort = string
@@ -22,6 +23,16 @@ const (
 type T struct {
 	s    string
 	sort Sort
+}
+
+// conjTable remembers the top-level conjuncts of terms built by And (used to split obligations).
+var conjTable = map[string][]T{}
+var conjMu sync.Mutex
+
+func conjOf(t T) []T {
+	conjMu.Lock()
+	defer conjMu.Unlock()
+	return conjTable[t.s]
 }
 
 func (t T) String() string { return t.s }
@@ -92,7 +103,11 @@ func And(ts ...T) T {
 		if t.s == "false" {
 			return TFalse
 		}
-		xs = append(xs, t)
+		if c := conjOf(t); len(c) > 0 {
+			xs = append(xs, c...)
+		} else {
+			xs = append(xs, t)
+		}
 	}
 	switch len(xs) {
 	case 0:
@@ -100,7 +115,11 @@ func And(ts ...T) T {
 	case 1:
 		return xs[0]
 	}
-	return mk(SBool, "and", xs...)
+	r := mk(SBool, "and", xs...)
+	conjMu.Lock()
+	conjTable[r.s] = xs
+	conjMu.Unlock()
+	return r
 }
 
 func Or(ts ...T) T {
